@@ -19,6 +19,7 @@ ALL functions of the anchored modules of the property, not only over the functio
     stale system        a builder created from the ODE system read before the model was re-bound
     lost update         statements = statements.reassign(..) / model = model.replace(..) never read on some path to a return
     loop-carried flag   (advisory) a flag tested and cleared in an inner loop but initialised outside the outer one
+    stale compartment   cb.set_x(comp, ..) replaces the node; the old `comp` is handed to the builder again
     iterators compared  `c.append(product(..))` ... `x in c`: a collection of iterator objects is searched by identity
     unknown attribute   `self.x` read in a method although no class of the hierarchy (bases and subclasses, all inside the
                         package, no __getattr__ / setattr / __dict__ tricks) defines or assigns `x`
@@ -158,6 +159,10 @@ def run(chk, repo, pid):
         for dname, a in lints.defaultdict_overwrites(f.node)[0]:
             found.append(('collector overwritten', a.lineno, unparse(a)[:80],
                           f'`{dname}` collects values per key; the assignment replaces what earlier iterations collected'))
+        for mut_, use_, nm_ in lints.stale_compartment_handles(f.node):
+            found.append(('stale compartment', use_.line, f'{mut_.text()[:50]} ... {use_.text()[:50]}',
+                          f'`{nm_}` was replaced in the builder by the first call (which returns the new compartment); the second '
+                          f'call addresses a compartment that is not in the graph any more and changes nothing'))
         for ap_, cmp_ in lints.membership_among_iterators(f.node):
             found.append(('iterators compared', cmp_.lineno, f'{unparse(ap_)[:60]} ... {unparse(cmp_)[:40]}',
                           'the collection holds iterator objects (compared by identity): the membership test is False for '
@@ -286,4 +291,4 @@ def run(chk, repo, pid):
                 chk.violation(Y0, f.module.rel, f.qualname, f'loop-carried flag `{v}`',
                               'tested and cleared in an inner loop, initialised outside the outer loop', line=M.lineno,
                               advisory=True)
-    chk.instance(Y0, f'{nfun} functions of {len(mods)} anchored modules scanned for 21 defect shapes', n=nfun)
+    chk.instance(Y0, f'{nfun} functions of {len(mods)} anchored modules scanned for 22 defect shapes', n=nfun)
